@@ -29,7 +29,7 @@ type vxC06Step struct {
 	Op    string `json:"op"`              // submit answer cancel nodecut connclose check
 	N     int    `json:"n,omitempty"`     // submit: callers; answer/cancel: how many
 	Key   int    `json:"key,omitempty"`   // selects which outstanding callers (rotation)
-	Mode  int    `json:"mode,omitempty"`  // nodecut: 0 between frames, 1 inside a header, 2 inside a body; answer: 1 = ERROR frames
+	Mode  int    `json:"mode,omitempty"`  // nodecut: 0 between frames, 1 inside a header, 2 inside a body; answer: 1 = ERROR frames; submit: 1 = with a custom payload (a frame-build failure below protocol 4)
 }
 
 type vxC06Case struct {
@@ -68,6 +68,9 @@ func vxDrawC06(t *rapid.T) *vxC06Case {
 		switch st.Op {
 		case "submit":
 			st.N = rapid.IntRange(1, 8).Draw(t, "n")
+			if rapid.IntRange(0, 5).Draw(t, "payload") == 0 {
+				st.Mode = 1
+			}
 			if rapid.IntRange(0, 40).Draw(t, "many") == 0 {
 				st.N = rapid.IntRange(120, 135).Draw(t, "nmany")
 			}
@@ -95,6 +98,7 @@ type vxC06Caller struct {
 	asErr    bool
 	canceled bool
 	doomed   bool // its connection was cut/closed, or the session was closed, while it was outstanding
+	buildFails bool // its frame cannot be built (custom payload below protocol 4): must end with an error, nothing sent
 }
 
 // vxPoolConns lists the open pool connections of the session (white-box).
@@ -256,8 +260,14 @@ func vxRunC06(c *vxC06Case, k *vstats.Case) error {
 				ctx, cancel := context.WithCancel(context.Background())
 				cr := &vxC06Caller{tok: fmt.Sprintf("tok_%d", seq), cancel: cancel, done: make(chan struct{})}
 				callers = append(callers, cr)
+				withPayload := st.Mode == 1
+				cr.buildFails = withPayload && c.Proto < 4
 				go func() {
-					iter := s.Query("LIST " + cr.tok).WithContext(ctx).Iter()
+					q := s.Query("LIST " + cr.tok).WithContext(ctx)
+					if withPayload {
+						q = q.CustomPayload(map[string][]byte{"k": {1}})
+					}
+					iter := q.Iter()
 					var got string
 					iter.Scan(&got)
 					err := iter.Close()
@@ -424,7 +434,12 @@ func vxRunC06(c *vxC06Case, k *vstats.Case) error {
 		if got != "" && got != cr.tok {
 			return fmt.Errorf("caller of %s received the row of %s", cr.tok, got)
 		}
+		if cr.buildFails && err == nil {
+			return fmt.Errorf("caller of %s asked for a custom payload on protocol %d and got success", cr.tok, c.Proto)
+		}
 		switch {
+		case cr.buildFails:
+			k.Class("outcome=frame-build-refused")
 		case err == nil:
 			if got != cr.tok || !cr.answered || cr.asErr {
 				return fmt.Errorf("caller of %s returned success (row %q) but answered=%v asErr=%v", cr.tok, got, cr.answered, cr.asErr)
